@@ -200,6 +200,36 @@ def main():
     evals += r[0]; nontriv += r[1]; spec_ref = r[2] if len(r) > 2 else 0
     samples.append({'int-literal': cases[len(cases) // 2][3]})
 
+    # --- floating constants (6.4.4.2): value rounded ONCE to the type the suffix gives (float / double / long double), decimal and hexadecimal,
+    # values within a fraction of an ulp of a rounding boundary of each format; object bytes and sizeof = gcc
+    import check_c02
+    flits = []
+    for sv in check_c02.FVALS: flits += [sv, sv + 'f', sv + 'L', sv + 'F', sv + 'l']
+    flits += ['1.00000000000000011102230246251565404236316680908203126', '1.00000000000000011102230246251565404236316680908203124', '0.1f', '1e-45f', '7.0064923216240853546186479164495807e-46f', '3.4028235677973366e38f',
+              '1.000000059604644775390625000000000000001f', '1.0000000596046447763f', '1.000000178813934326171874999999999999999f', '-8.0000004768371582031250000000001f', '1.0000000596046447753906250f', '1.00000017881393432617187500f',
+              '1.7976931348623158e308', '4.9406564584124654e-324', '2.4703282292062328e-324', '0x.8p1', '0xAp-1', '0XA.8P0f', '1.e2', '.5e-2L', '1E+3', '0x1.fffffffffffff8p0', '0x1.ffffffffffffffffp0L', '1e4932L', '3.3621031431120935063e-4932L',
+              '0x1.000001000000000001p0f', '0x1.0000010000000000000000001p0f', '0x1.000002ffffffffffffp0f', '1.0000000000000002220446049250313080847263336181640625000001', '9007199254740993.0000000001', '0.30000001192092895507812500000000001f']
+    ftext = PRINTF + 'static void dump(int id, void *p, int n) { printf("F%d ", id); for (int i = 0; i < n; i++) printf("%02x", ((unsigned char *)p)[i]); printf("\\n"); }\nint main(void) {\n'
+    fl = []
+    for i, l in enumerate(flits):
+        hexa = 'x' in l.lower()[:3]
+        if l[-1] in 'fF' and hexa and 'p' not in l.lower(): continue            # 0x1f is an integer
+        t = 'float' if l[-1] in 'fF' and (not hexa or 'p' in l.lower()) else 'long double' if l[-1] in 'lL' else 'double'
+        n = {'float': 4, 'double': 8, 'long double': 10}[t]
+        ftext += '  { %s r = %s; static %s s = %s; dump(%d, &r, %d); dump(%d, &s, %d); int sz = sizeof(%s); dump(%d, &sz, 4); }\n' % (t, l, t, l, 3 * i, n, 3 * i + 1, n, l, 3 * i + 2); fl.append((i, l, t))
+    ftext += '  return 0; }\n'
+    ff = os.path.join(wd, 'flits.c'); open(ff, 'w').write(ftext)
+    stg, refo = compile_run(['gcc', '-std=gnu11', '-w', '-O0', '-frounding-math'], ff, ff + '.gcc'); stc, goto_ = compile_run([os.path.join(src, 'chibicc')], ff, ff + '.exe')
+    if stg != 'ok': run.corr_broken.append('floating-constant program fails under gcc: ' + stg[:200])
+    elif stc != 'ok': run.violation(dict(kind='floating-constant-program', what=stc[:300], input_file=write_replay(PID, 'flits.c', ftext)), dict(area='float-literal', what='rejected'))
+    else:
+        gd = dict(x.split(' ') for x in refo.strip().split('\n') if x.startswith('F')); cd = dict(x.split(' ') for x in goto_.strip().split('\n') if x.startswith('F'))
+        for (i, l, t) in fl:
+            evals += 1; nontriv += 1
+            for k, what in ((3 * i, 'automatic object'), (3 * i + 1, 'static object'), (3 * i + 2, 'sizeof')):
+                if cd.get('F%d' % k) != gd.get('F%d' % k):
+                    run.violation(dict(kind='floating-constant', constant=l, type=t, position=what, chibicc_bytes=cd.get('F%d' % k), gcc_bytes=gd.get('F%d' % k)), dict(area='float-literal', construct=what)); break
+
     # --- character / string literals, concatenation, UCNs: gcc is the reference
     str_dis = 0
     for i in range(3 if run.quick() else 20):
